@@ -50,9 +50,9 @@ __CPROVER_ensures(__CPROVER_return_value==g_exit_active)
 
 /* user guard / action through invoke_guard_functor / Row::guard_call (call_guard_or_true's own unit) */
 _Bool user_guard(fsm_t* sm, event_t event, stref_t source, stref_t target)
-__CPROVER_requires(g_phase==0 && !g_exc)                                                       /*@ob C02.guard-first-and-once */
-__CPROVER_requires(ROW_INTERNAL || sm->m_active_state_ids[g_region]==ORACLE_GUARD)             /*@ob C19.guard-observes-source */
-__CPROVER_requires(ROW_INTERNAL || !g_src_is_exit_pt || g_exit_active)                         /*@ob C09.exit-point-row-only-while-active */
+__CPROVER_requires(g_phase==0 && !g_exc)                                                       /*@ob C02,C01.guard-first-and-once */
+__CPROVER_requires(ROW_INTERNAL || sm->m_active_state_ids[g_region]==ORACLE_GUARD)             /*@ob C19,C03.guard-observes-source */
+__CPROVER_requires(ROW_INTERNAL || !g_src_is_exit_pt || g_exit_active)                         /*@ob C09,C01.exit-point-row-only-while-active */
 __CPROVER_requires(g_guard_calls < 1000)
 __CPROVER_assigns(g_phase, g_exc, g_guard_calls)
 __CPROVER_ensures(g_guard_calls==__CPROVER_old(g_guard_calls)+1)
@@ -60,8 +60,8 @@ __CPROVER_ensures(g_phase == ((!g_exc && __CPROVER_return_value) ? 1 : 0))
 ;
 HandledEnum user_action(fsm_t* sm, event_t event, stref_t source, stref_t target)
 __CPROVER_requires(!g_exc)
-__CPROVER_requires(ROW_INTERNAL ? g_phase==1 : g_phase==2)                                      /*@ob C02.action-after-exit-before-entry */
-__CPROVER_requires(ROW_INTERNAL || sm->m_active_state_ids[g_region]==ORACLE_ACTION)            /*@ob C19.action-observes-policy-state */
+__CPROVER_requires(ROW_INTERNAL ? g_phase==1 : g_phase==2)                                      /*@ob C02,C19.action-after-exit-before-entry */
+__CPROVER_requires(ROW_INTERNAL || sm->m_active_state_ids[g_region]==ORACLE_ACTION)            /*@ob C19,C03.action-observes-policy-state */
 __CPROVER_assigns(g_phase, g_exc)
 __CPROVER_ensures(g_exc || g_phase==3)
 __CPROVER_ensures(!g_exc || g_phase==__CPROVER_old(g_phase))
@@ -76,20 +76,20 @@ extern const _Bool g_has_Guard_typedef, g_has_Action_typedef;    /* has_Guard<Ro
 #define NO_GUARD_STEP() (g_phase = 1)      /* ghost only: a row without guard passes the guard phase */
 _Bool call_guard_or_true(type_t row, _Bool HasGuardP, fsm_t* sm, event_t event, stref_t source, stref_t target)
 __CPROVER_requires(__CPROVER_is_fresh(sm, sizeof(*sm)) && (ROW_INTERNAL || (0<=g_region && g_region<NR_CAP && 0<=policy && policy<=3)))
-__CPROVER_requires(g_phase==0 && !g_exc)                                                       /*@ob C02.guard-first-and-once */
-__CPROVER_requires(ROW_INTERNAL || sm->m_active_state_ids[g_region]==ORACLE_GUARD)             /*@ob C19.guard-observes-source */
-__CPROVER_requires(ROW_INTERNAL || !g_src_is_exit_pt || g_exit_active)                         /*@ob C09.exit-point-row-only-while-active */
+__CPROVER_requires(g_phase==0 && !g_exc)                                                       /*@ob C02,C01.guard-first-and-once */
+__CPROVER_requires(ROW_INTERNAL || sm->m_active_state_ids[g_region]==ORACLE_GUARD)             /*@ob C19,C03.guard-observes-source */
+__CPROVER_requires(ROW_INTERNAL || !g_src_is_exit_pt || g_exit_active)                         /*@ob C09,C01.exit-point-row-only-while-active */
 __CPROVER_requires(0 <= g_guard_calls && g_guard_calls < 1000)
 __CPROVER_assigns(g_phase, g_exc, g_guard_calls)
-__CPROVER_ensures(g_guard_calls==__CPROVER_old(g_guard_calls)+ (HAS_ANY_GUARD ? 1 : 0))        /*@ob C01.guard-evaluated-exactly-once-per-row */
+__CPROVER_ensures(g_guard_calls==__CPROVER_old(g_guard_calls)+ (HAS_ANY_GUARD ? 1 : 0))        /*@ob C01,C02.guard-evaluated-exactly-once-per-row */
 __CPROVER_ensures(HAS_ANY_GUARD || (__CPROVER_return_value && !g_exc))                         /*@ob C02.row-without-guard-is-always-enabled */
 __CPROVER_ensures(g_phase == ((!g_exc && __CPROVER_return_value) ? 1 : 0))
 ;
 HandledEnum call_action_or_true(type_t row, _Bool HasActionP, fsm_t* sm, event_t event, stref_t source, stref_t target)
 __CPROVER_requires(__CPROVER_is_fresh(sm, sizeof(*sm)) && (ROW_INTERNAL || (0<=g_region && g_region<NR_CAP && 0<=policy && policy<=3)))
 __CPROVER_requires(!g_exc)
-__CPROVER_requires(ROW_INTERNAL ? g_phase==1 : g_phase==2)                                      /*@ob C02.action-after-exit-before-entry */
-__CPROVER_requires(ROW_INTERNAL || sm->m_active_state_ids[g_region]==ORACLE_ACTION)            /*@ob C19.action-observes-policy-state */
+__CPROVER_requires(ROW_INTERNAL ? g_phase==1 : g_phase==2)                                      /*@ob C02,C19.action-after-exit-before-entry */
+__CPROVER_requires(ROW_INTERNAL || sm->m_active_state_ids[g_region]==ORACLE_ACTION)            /*@ob C19,C03.action-observes-policy-state */
 __CPROVER_assigns(g_phase, g_exc)
 __CPROVER_ensures(g_exc || g_phase==3)
 __CPROVER_ensures(!g_exc || g_phase==__CPROVER_old(g_phase))
@@ -99,28 +99,28 @@ __CPROVER_ensures(__CPROVER_return_value==HANDLED_TRUE || __CPROVER_return_value
 #define NO_ACTION_STEP() (g_phase = 3)
 
 void state_on_exit(type_t st, stref_t s, event_t event, fsm_t* fsm)
-__CPROVER_requires(g_phase==1 && !g_exc)                                          /*@ob C02.exit-after-guard-before-action */
-__CPROVER_requires(st==current_state_type)                                        /*@ob C02.exit-of-the-source-state */
-__CPROVER_requires(fsm->m_active_state_ids[g_region]==ORACLE_EXIT)                /*@ob C19.exit-observes-policy-state */
-__CPROVER_requires(g_act[g_cur]==1)                                               /*@ob C03.exit-only-of-an-active-state */
+__CPROVER_requires(g_phase==1 && !g_exc)                                          /*@ob C02,C19.exit-after-guard-before-action */
+__CPROVER_requires(st==current_state_type)                                        /*@ob C02,C03.exit-of-the-source-state */
+__CPROVER_requires(fsm->m_active_state_ids[g_region]==ORACLE_EXIT)                /*@ob C19,C03.exit-observes-policy-state */
+__CPROVER_requires(g_act[g_cur]==1)                                               /*@ob C03,C02.exit-only-of-an-active-state */
 __CPROVER_assigns(g_phase, g_exc, g_act[g_cur])
 __CPROVER_ensures(g_exc || (g_phase==2 && g_act[g_cur]==0))
 __CPROVER_ensures(!g_exc || (g_phase==__CPROVER_old(g_phase)))
 ;
 void call_entry(type_t row, fsm_t* sm, event_t event, stref_t target)
-__CPROVER_requires(g_phase==3 && !g_exc)                                          /*@ob C02.entry-last */
+__CPROVER_requires(g_phase==3 && !g_exc)                                          /*@ob C02,C19.entry-last */
 __CPROVER_requires(row==Row)
-__CPROVER_requires(sm->m_active_state_ids[g_region]==ORACLE_ENTRY)                /*@ob C19.entry-observes-policy-state */
-__CPROVER_requires(g_act[g_nxt]==0)                                               /*@ob C03.entry-only-of-an-inactive-state */
+__CPROVER_requires(sm->m_active_state_ids[g_region]==ORACLE_ENTRY)                /*@ob C19,C03.entry-observes-policy-state */
+__CPROVER_requires(g_act[g_nxt]==0)                                               /*@ob C03,C02.entry-only-of-an-inactive-state */
 __CPROVER_assigns(g_phase, g_exc, g_act[g_nxt])
 __CPROVER_ensures(g_exc || (g_phase==4 && g_act[g_nxt]==1))
 __CPROVER_ensures(!g_exc || g_phase==__CPROVER_old(g_phase))
 ;
 /* completion hook: may enqueue a completion-event occurrence (its own unit in completion.spec.h) */
 void on_state_entry_completed(fsm_t* sm, type_t state, uint8_t region_id)
-__CPROVER_requires(g_phase==4 && !g_exc)                                          /*@ob C10.completion-hook-after-entry-completed */
+__CPROVER_requires(g_phase==4 && !g_exc)                                          /*@ob C10,C02.completion-hook-after-entry-completed */
 __CPROVER_requires(state==next_state_type && region_id==g_region)
-__CPROVER_requires(sm->m_active_state_ids[g_region]==NXT)                         /*@ob C10.completion-hook-sees-the-target-active */
+__CPROVER_requires(sm->m_active_state_ids[g_region]==NXT)                         /*@ob C10,C19,C03.completion-hook-sees-the-target-active */
 __CPROVER_assigns(g_phase)
 __CPROVER_ensures(g_phase==5)
 ;
@@ -133,22 +133,22 @@ __CPROVER_requires(g_phase==0 && !g_exc && g_guard_calls==0)
 __CPROVER_requires(sm->m_active_state_ids[region_id]==CUR)                /* WF: the transition of the active state is the one dispatched */
 __CPROVER_requires(g_act[g_cur]==1 && (NXT==CUR || g_act[g_nxt]==0))      /* WF ledger (C03) */
 __CPROVER_assigns(g_phase, g_exc, g_guard_calls, sm->m_active_state_ids[region_id], g_act[g_cur], g_act[g_nxt])
-__CPROVER_ensures((g_src_is_exit_pt && !g_exit_active) ==> (__CPROVER_return_value==HANDLED_FALSE && g_phase==0 && g_guard_calls==0 && sm->m_active_state_ids[region_id]==CUR))  /*@ob C09.exit-point-row-inert-while-inactive */
-__CPROVER_ensures((!g_exc && __CPROVER_return_value==HANDLED_GUARD_REJECT) ==> (g_phase==0 && sm->m_active_state_ids[region_id]==CUR && g_act[g_cur]==1))                        /*@ob C02.rejected-guard-changes-nothing */
-__CPROVER_ensures((!g_exc && (__CPROVER_return_value==HANDLED_TRUE || __CPROVER_return_value==HANDLED_DEFERRED)) ==> g_phase==5)                                               /*@ob C02.taken-runs-exit-action-entry */
-__CPROVER_ensures((!g_exc && (__CPROVER_return_value==HANDLED_TRUE || __CPROVER_return_value==HANDLED_DEFERRED)) ==> sm->m_active_state_ids[region_id]==NXT)                   /*@ob C19.after-transition-target-is-active */
-__CPROVER_ensures((!g_exc && (__CPROVER_return_value==HANDLED_TRUE || __CPROVER_return_value==HANDLED_DEFERRED)) ==> (g_act[g_nxt]==1 && (NXT==CUR || g_act[g_cur]==0)))        /*@ob C03.ledger-agrees-with-active-state */
+__CPROVER_ensures((g_src_is_exit_pt && !g_exit_active) ==> (__CPROVER_return_value==HANDLED_FALSE && g_phase==0 && g_guard_calls==0 && sm->m_active_state_ids[region_id]==CUR))  /*@ob C09,C01,C02.exit-point-row-inert-while-inactive */
+__CPROVER_ensures((!g_exc && __CPROVER_return_value==HANDLED_GUARD_REJECT) ==> (g_phase==0 && sm->m_active_state_ids[region_id]==CUR && g_act[g_cur]==1))                        /*@ob C02,C03,C01.rejected-guard-changes-nothing */
+__CPROVER_ensures((!g_exc && (__CPROVER_return_value==HANDLED_TRUE || __CPROVER_return_value==HANDLED_DEFERRED)) ==> g_phase==5)                                               /*@ob C02,C03.taken-runs-exit-action-entry */
+__CPROVER_ensures((!g_exc && (__CPROVER_return_value==HANDLED_TRUE || __CPROVER_return_value==HANDLED_DEFERRED)) ==> sm->m_active_state_ids[region_id]==NXT)                   /*@ob C19,C03,C02.after-transition-target-is-active */
+__CPROVER_ensures((!g_exc && (__CPROVER_return_value==HANDLED_TRUE || __CPROVER_return_value==HANDLED_DEFERRED)) ==> (g_act[g_nxt]==1 && (NXT==CUR || g_act[g_cur]==0)))        /*@ob C03,C02.ledger-agrees-with-active-state */
 __CPROVER_ensures(!g_exc ==> (__CPROVER_return_value==HANDLED_TRUE || __CPROVER_return_value==HANDLED_DEFERRED || __CPROVER_return_value==HANDLED_GUARD_REJECT || __CPROVER_return_value==HANDLED_FALSE))
-__CPROVER_ensures(g_guard_calls <= 1)                                                                                                                                           /*@ob C01.guard-at-most-once */
-__CPROVER_ensures(g_exc ==> (g_phase<4 && sm->m_active_state_ids[region_id]==ORACLE_AT_PHASE(g_phase)))                                                                        /*@ob C12.throw-leaves-policy-state */
+__CPROVER_ensures(g_guard_calls <= 1)                                                                                                                                           /*@ob C01,C02.guard-at-most-once */
+__CPROVER_ensures(g_exc ==> (g_phase<4 && sm->m_active_state_ids[region_id]==ORACLE_AT_PHASE(g_phase)))                                                                        /*@ob C12,C03.throw-leaves-policy-state */
 ;
 
 process_result internal_transition_execute(fsm_t* sm, uint8_t region_id, event_t event)
 __CPROVER_requires(__CPROVER_is_fresh(sm,sizeof(*sm)) && region_id<NR_CAP)
 __CPROVER_requires(g_phase==0 && !g_exc && g_guard_calls==0)
 __CPROVER_requires(ROW_SM_INTERNAL || sm->m_active_state_ids[region_id]==CUR)
-__CPROVER_assigns(g_phase, g_exc, g_guard_calls)                                                     /*@ob C02.internal-row-frame */
-__CPROVER_ensures((!g_exc && __CPROVER_return_value==HANDLED_GUARD_REJECT) ==> g_phase==0)           /*@ob C02.rejected-guard-changes-nothing */
-__CPROVER_ensures((!g_exc && __CPROVER_return_value!=HANDLED_GUARD_REJECT) ==> (g_phase==3 && (__CPROVER_return_value==HANDLED_TRUE || __CPROVER_return_value==HANDLED_DEFERRED)))  /*@ob C02.internal-row-guard-then-action */
-__CPROVER_ensures(g_guard_calls <= 1)                                                                /*@ob C01.guard-at-most-once */
+__CPROVER_assigns(g_phase, g_exc, g_guard_calls)                                                     /*@ob C02,C03.internal-row-frame */
+__CPROVER_ensures((!g_exc && __CPROVER_return_value==HANDLED_GUARD_REJECT) ==> g_phase==0)           /*@ob C02,C03,C01.rejected-guard-changes-nothing */
+__CPROVER_ensures((!g_exc && __CPROVER_return_value!=HANDLED_GUARD_REJECT) ==> (g_phase==3 && (__CPROVER_return_value==HANDLED_TRUE || __CPROVER_return_value==HANDLED_DEFERRED)))  /*@ob C02,C01.internal-row-guard-then-action */
+__CPROVER_ensures(g_guard_calls <= 1)                                                                /*@ob C01,C02.guard-at-most-once */
 ;
